@@ -939,11 +939,17 @@ spec("C16", jobs=c16_jobs,
                 "{0,1,2,5}: the alias table gives every outcome exactly its probability (zero for a zero entry) and neither "
                 "alias_sample nor loaded_dice ever returns an outcome of probability zero on a lattice of raw words. (v) Lattice, "
                 "vectors and sequences again under the floating-point trap mask that cimba_run_experiment gives its worker threads "
-                "(log(0), 0/0, sqrt(<0) inside a sampler end the execution with SIGFPE there).",
+                "(log(0), 0/0, sqrt(<0) inside a sampler end the execution with SIGFPE there). (vi) Ziggurat slow paths: every "
+                "raw-word sequence that leaves the hot path (each slow low byte x a lattice of the upper bits, both signs; all 256 "
+                "low bytes x a lattice for the second word; a lattice for the third) is executed with its product weight, and the "
+                "resulting distribution is compared cumulatively with what the stated density leaves once the hot path's exactly "
+                "known share (uniform variates on the table's intervals) is taken out.",
      level_note="Trusted: the reference constructions and distribution functions in harness/c16_dist.c (written from the textbook "
-                "formulas), hook H2. NOT decided by this family: the literal convergence clause for rejection samplers is a limit "
-                "statement; what is decided is support on adversarial raw words, algorithmic equivalence with the standard "
-                "construction on every enumerated raw sequence, and exactness of the tables.",
+                "formulas), hook H2. The convergence clause is a limit statement; it is decided here in its finite form: for "
+                "single-draw samplers and the ziggurats the distribution of the result as a function of independent uniform raw "
+                "words is integrated on a lattice (error bound: lattice resolution, measured 0.1-0.4 % of the slow path's 1.2-1.6 % "
+                "mass) and compared with the stated distribution; for the other multi-draw samplers what is decided is support on "
+                "adversarial raw words and algorithmic equivalence with the standard construction on every enumerated raw sequence.",
      budget=dict(quick=900, thorough=5400),
      rule="tables: 256 layers x 2 distributions; lattice: 23 sampler/parameter sets x 2^lbits raw words; sequences: 35 sampler/"
           "parameter sets x 40^K raw-word sequences; distinct_nontrivial = distinct returned values (sequences) / distinct outcome vectors",
